@@ -68,6 +68,10 @@ pub enum Op {
     CloneSwap,
     /// call as_triangulation_mut() (documented to invalidate caches) without changing anything
     TouchMut,
+    /// keep a clone of the current triangulation aside
+    Snapshot,
+    /// continue on the clone kept by the last Snapshot (if any)
+    Restore,
 }
 
 pub fn validation_policy(k: u8) -> ValidationPolicy {
@@ -142,6 +146,8 @@ pub enum Outcome {
     Repaired { flips: usize, heuristic: bool },
     RepairErr { error: String, invalid_topology: bool },
     Set,
+    /// the triangulation was replaced by an earlier snapshot
+    Restored,
     /// a policy setter panicked (debug_assert!(false) in the debug-assertion profile): a C19 matter
     SetPanicked { site: String, message: String },
     Noop,
@@ -160,6 +166,7 @@ impl Outcome {
             Outcome::Repaired { .. } => "Repaired",
             Outcome::RepairErr { .. } => "RepairErr",
             Outcome::Set => "Set",
+            Outcome::Restored => "Restored",
             Outcome::SetPanicked { .. } => "SetPanicked",
             Outcome::Noop => "Noop",
         }
@@ -190,6 +197,7 @@ pub struct World<K: Kern<D>, const D: usize> {
     /// keys of cells/vertices that existed at some point and may be stale now
     pub stale_cells: Vec<u64>,
     pub stale_vertices: Vec<u64>,
+    pub saved: Option<Dt<K, i32, D>>,
 }
 
 fn flip_summary<const D: usize>(info: &FlipInfo<D>, k: usize, inverse: bool) -> FlipSummary {
@@ -206,7 +214,7 @@ fn flip_summary<const D: usize>(info: &FlipInfo<D>, k: usize, inverse: bool) -> 
 
 impl<K: Kern<D>, const D: usize> World<K, D> {
     pub fn new(dt: Dt<K, i32, D>, salt: u64, next_id: usize) -> Self {
-        World { dt, salt, next_id, removed: Vec::new(), stale_cells: Vec::new(), stale_vertices: Vec::new() }
+        World { dt, salt, next_id, removed: Vec::new(), stale_cells: Vec::new(), stale_vertices: Vec::new(), saved: None }
     }
 
     pub fn snap(&self) -> Snap {
@@ -614,6 +622,22 @@ impl<K: Kern<D>, const D: usize> World<K, D> {
                 let _ = self.dt.as_triangulation_mut();
                 Outcome::Noop
             }
+            Op::Snapshot => {
+                r.desc = format!("snapshot (clone kept aside) at generation {}", self.dt.tds().generation());
+                self.saved = Some(self.dt.clone());
+                Outcome::Noop
+            }
+            Op::Restore => {
+                r.desc = "restore the snapshot".into();
+                match self.saved.clone() {
+                    Some(d) => {
+                        self.remember(before);
+                        self.dt = d;
+                        Outcome::Restored
+                    }
+                    None => Outcome::Noop,
+                }
+            }
             Op::CloneSwap => {
                 r.desc = "clone and continue on the clone".into();
                 let c = self.dt.clone();
@@ -701,7 +725,7 @@ pub fn op_strategy(dim: usize, mix: OpMix) -> BoxedStrategy<Op> {
         arms.push((mix.setters, setters.boxed()));
     }
     if mix.clone > 0 {
-        arms.push((mix.clone, prop_oneof![Just(Op::CloneSwap), Just(Op::TouchMut)].boxed()));
+        arms.push((mix.clone, prop_oneof![Just(Op::CloneSwap), Just(Op::TouchMut), Just(Op::Snapshot), Just(Op::Restore)].boxed()));
     }
     proptest::strategy::Union::new_weighted(arms).boxed()
 }
@@ -715,6 +739,9 @@ pub struct Start {
     pub validation: Option<u8>,
     pub repair: Option<u8>,
     pub check: Option<u8>,
+    /// all start points are multiplied by 2^scale_pow (0 = unscaled)
+    #[serde(default)]
+    pub scale_pow: i8,
 }
 
 pub fn start_strategy(dim: usize, nmax: usize, empty_weight: u32) -> BoxedStrategy<Start> {
@@ -722,8 +749,8 @@ pub fn start_strategy(dim: usize, nmax: usize, empty_weight: u32) -> BoxedStrate
         empty_weight => Just(Vec::<Vec<f64>>::new()),
         6 => crate::gen::points::point_set_from(dim, dim + 1, nmax, crate::gen::points::EXACT_FAMILIES).prop_map(|p| p.pts),
     ];
-    (pts, 0u8..3, proptest::option::of(0u8..4), proptest::option::of(0u8..4), proptest::option::of(0u8..3))
-        .prop_map(|(points, guarantee, validation, repair, check)| Start { points, guarantee, validation, repair, check })
+    (pts, 0u8..3, proptest::option::of(0u8..4), proptest::option::of(0u8..4), proptest::option::of(0u8..3), prop_oneof![6 => Just(0i8), 1 => Just(-2i8), 1 => Just(-4i8), 1 => Just(-6i8), 1 => Just(3i8)])
+        .prop_map(|(points, guarantee, validation, repair, check, scale_pow)| Start { points, guarantee, validation, repair, check, scale_pow })
         .boxed()
 }
 
@@ -734,7 +761,8 @@ pub fn start_world<K: Kern<D>, const D: usize>(st: &Start, salt: u64) -> Option<
     let mut dt: Dt<K, i32, D> = if st.points.is_empty() {
         Dt::<K, i32, D>::with_empty_kernel_and_topology_guarantee(k, g)
     } else {
-        let verts: Vec<_> = st.points.iter().enumerate().map(|(i, p)| mk_vertex::<i32, D>(p, uuid_for(salt, i + 1), Some((i as i64 + 1) * 3 + 1))).collect();
+        let sc = 2f64.powi(st.scale_pow as i32);
+        let verts: Vec<_> = st.points.iter().enumerate().map(|(i, p)| mk_vertex::<i32, D>(&p.iter().map(|x| x * sc).collect::<Vec<f64>>(), uuid_for(salt, i + 1), Some((i as i64 + 1) * 3 + 1))).collect();
         Dt::<K, i32, D>::with_topology_guarantee(&k, &verts, g).ok()?
     };
     if let Some(v) = st.validation {
